@@ -274,10 +274,23 @@ func (ex *Exec) intBinOp(st *State, op token.Token, x, y *Term, xt, yt types.Typ
 		return tb.Lt(y, x), true
 	case token.GEQ:
 		return tb.Le(y, x), true
-	case token.ADD:
-		return ex.fitIntV(st, tb.Add(x, y), b, pos)
-	case token.SUB:
-		return ex.fitIntV(st, tb.Sub(x, y), b, pos)
+	case token.ADD, token.SUB:
+		r := tb.Add(x, y)
+		if op == token.SUB {
+			r = tb.Sub(x, y)
+		}
+		if w := ex.intWidth(b); w <= 16 {
+			// narrow types wrap exactly: one correction suffices for a sum or difference of two
+			// in-range values (counters such as deadline's uint8 `pending` rely on it)
+			lo, hi := typeRange(b, w)
+			rlo, rhi := r.Bounds()
+			if rlo != nil && rhi != nil && rlo.Cmp(lo) >= 0 && rhi.Cmp(hi) <= 0 {
+				return r, true
+			}
+			m := tb.IntBig(pow2(w))
+			return tb.Ite(tb.Lt(tb.IntBig(hi), r), tb.Sub(r, m), tb.Ite(tb.Lt(r, tb.IntBig(lo)), tb.Add(r, m), r)), true
+		}
+		return ex.fitIntV(st, r, b, pos)
 	case token.MUL:
 		return ex.fitIntV(st, tb.Mul(x, y), b, pos)
 	case token.QUO, token.REM:
@@ -764,10 +777,10 @@ func (ex *Exec) step(st *State, instr ssa.Instruction) bool {
 		}
 		gt, gf := tb.And(st.G, c), tb.And(st.G, tb.Not(c))
 		inLoop := len(st.top().fi.loops[in.Block()]) > 0
+		if os.Getenv("VERIF_DEBUG") == "3" {
+			fmt.Printf("[if] %s cond=%s\n", ex.posString(in.Cond.Pos()), ex.tb.Show(c))
+		}
 		if ex.FeasAll || (inLoop && !(ex.curWorld != nil && st.thread == nil)) {
-			if os.Getenv("VERIF_DEBUG") == "3" {
-				fmt.Printf("[if] %s cond=%s\n", ex.posString(in.Cond.Pos()), ex.tb.Show(c))
-			}
 			if !ex.feasible(gt) {
 				gt = tb.False
 			} else if !ex.feasible(gf) {
